@@ -677,6 +677,8 @@ class PE:
     def e_BinOp(self, n, env):
         a = self.eval(n.left, env)
         b = self.eval(n.right, env)
+        if self.site_hook is not None and isinstance(n.op, ast.Pow):
+            self.site_hook("pow", n, env, [a, b])
         try:
             return self.binop(n.op, a, b)
         except TypeError as e:
@@ -1044,6 +1046,8 @@ class PE:
                 return None  # object.__init__ etc.
         f = self.eval(n.func, env)
         args, kwargs = self._args(n, env)
+        if self.site_hook is not None and isinstance(f, ExtRef) and f.qname in _DOMAIN_CALLS:
+            self.site_hook(f.qname, n, env, args)
         try:
             return self.apply(f, args, kwargs, call_node=n, env=env)
         except RecursionError:
@@ -1584,6 +1588,10 @@ class _Iter:
         r = self.items[self.pos:]
         self.pos = len(self.items)
         return r
+
+
+_DOMAIN_CALLS = {"numpy.sqrt", "numpy.log", "numpy.power", "math.sqrt", "math.log", "numpy.arccos", "numpy.arcsin",
+                 "numpy.arctanh", "numpy.log10", "numpy.log2", "numpy.cbrt"}
 
 
 def _all_exact_zero(x):
